@@ -105,15 +105,33 @@ def cfb_build(entries, rng, version=3, shuffle=True, shuffle_dir=True, extra_fre
     children = {}
     for i, e in enumerate(entries):
         children.setdefault(e.parent, []).append(i)
-    child_of, right_of = {}, {}
+    child_of, right_of, left_of = {}, {}, {}
+    shape = rng.choice(["chain", "chain", "tree", "unsorted"])
+    def link(ch):
+        """any binary tree over ch (in the given order = in-order): returns the entry at its top"""
+        if not ch:
+            return None
+        k = rng.randrange(len(ch))
+        l, r = link(ch[:k]), link(ch[k + 1:])
+        if l is not None:
+            left_of[ch[k]] = pos[l]
+        if r is not None:
+            right_of[ch[k]] = pos[r]
+        return ch[k]
     for par, ch in children.items():
         ch = sorted(ch, key=lambda i: (len(entries[i].name), entries[i].name.upper()))
-        child_of[par] = pos[ch[0]]
-        for a, b in zip(ch, ch[1:]):
-            right_of[a] = pos[b]
-    def dirent(name, typ, st, size, child=FREE, right=FREE, pad=b""):
+        if shape == "chain":
+            child_of[par] = pos[ch[0]]
+            for a, b in zip(ch, ch[1:]):
+                right_of[a] = pos[b]
+        else:
+            if shape == "unsorted":
+                # a writer that links the entries in creation order: a binary tree, not a search tree
+                ch = list(ch); rng.shuffle(ch)
+            child_of[par] = pos[link(ch)]
+    def dirent(name, typ, st, size, child=FREE, right=FREE, pad=b"", left=FREE):
         nf, nl = _name_field(name, pad)
-        return (nf + struct.pack("<H", nl) + bytes([typ, 1]) + struct.pack("<III", FREE, right, child) +
+        return (nf + struct.pack("<H", nl) + bytes([typ, 1]) + struct.pack("<III", left, right, child) +
                 b"\0" * 36 + struct.pack("<I", st) + struct.pack("<Q", size))
     slots = [None] * ndir
     slots[0] = dirent(root_name, 5, chains["mini"][0] if nmini else EOC, nmini * 64,
@@ -121,10 +139,11 @@ def cfb_build(entries, rng, version=3, shuffle=True, shuffle_dir=True, extra_fre
     for i, e in enumerate(entries):
         if e.typ == 2:
             st = chains["s%d" % i][0] if i in big else start[i]
-            slots[pos[i]] = dirent(e.name, 2, st, len(e.data), right=right_of.get(i, FREE), pad=e.pad)
+            slots[pos[i]] = dirent(e.name, 2, st, len(e.data), right=right_of.get(i, FREE), pad=e.pad,
+                                   left=left_of.get(i, FREE))
         else:
             slots[pos[i]] = dirent(e.name, 1, 0, 0, child=child_of.get(i, FREE),
-                                   right=right_of.get(i, FREE), pad=e.pad)
+                                   right=right_of.get(i, FREE), pad=e.pad, left=left_of.get(i, FREE))
     d = b"".join(slots)
     # unused directory slots: free entries (type 0), name empty
     free_ent = b"\0" * 64 + struct.pack("<H", 0) + bytes([0, 0]) + struct.pack("<III", FREE, FREE, FREE) + b"\0" * 48
